@@ -1,8 +1,9 @@
 /* C08 — honest peers agree on keys and deliver data intact (DESIGN 4.1). */
 #include "gmsim.h"
 
-static void honest_gen(Plan *p, uint64_t run_seed, int tier)
+static void honest_gen(Plan *p, uint64_t run_seed, uint64_t variant, int tier)
 {
+	(void)variant;
 	Rng g;
 	plan_init(p, "honest");
 	p->seed = (int64_t)run_seed;
@@ -37,6 +38,12 @@ void honest_oracle(const Plan *p, const HonestOut *o, RunResult *r)
 			return;
 		}
 	}
+	for (int s = 0; s < 2; s++)
+		if (o->recv_errs[s]) {
+			rr_violation(r, "stream_short", "proto=%s %s: recv returned an error %d time(s) on an untampered connection",
+				g_proto_names[p->proto], s ? "server" : "client", o->recv_errs[s]);
+			return;
+		}
 	for (int d = 0; d < 2; d++) {
 		uint64_t want = 0;
 		for (int i = 0; i < p->nrounds; i++) want += (uint64_t)p->rounds[i].n[d];
@@ -65,4 +72,4 @@ static void honest_run(const Plan *p, RunResult *r)
 		(unsigned long long)(o.wrote[0] + o.wrote[1]), o.nrecs[0] + o.nrecs[1]);
 }
 
-const Scenario g_scn_honest = { "honest", "C08", honest_gen, honest_run };
+const Scenario g_scn_honest = { "honest", "C08", 1, honest_gen, honest_run };
